@@ -120,6 +120,8 @@ def cases(rng, tier):
         t = corrupt(rng, rng.choice(seeds))
         if rng.random() < 0.2:
             t = corrupt(rng, t)
+        if rng.random() < 0.15:
+            t = t.replace("\n", "\r\n")      # diagnostics must refer to the text as given (line / column under CRLF)
         texts.append((t, "corrupted"))
     out = []
     for t, fam in texts:
